@@ -862,6 +862,8 @@ type indexAccess struct {
 	mater   map[string][]token.Pos // materialising stores (inside the miss branch of a lookup of the same map and key)
 	lookups map[string][]token.Pos
 	alias   map[string][]token.Pos // subset of stores: the stored value is an entry of the same map (no new object)
+	// lookups whose key comes from a resolver listed in det1ResolvedKeyExempt (kept apart from lookups)
+	resolved map[string][]token.Pos
 }
 
 func (c *Ctx) indexAccesses() map[*types.Func]*indexAccess {
@@ -871,7 +873,7 @@ func (c *Ctx) indexAccesses() map[*types.Func]*indexAccess {
 	out := map[*types.Func]*indexAccess{}
 	c.eachFunc(pkgASM, func(p *packages.Package, fd *ast.FuncDecl, fn *types.Func) {
 		info := p.TypesInfo
-		ia := &indexAccess{stores: map[string][]token.Pos{}, mater: map[string][]token.Pos{}, lookups: map[string][]token.Pos{}, alias: map[string][]token.Pos{}}
+		ia := &indexAccess{stores: map[string][]token.Pos{}, mater: map[string][]token.Pos{}, lookups: map[string][]token.Pos{}, alias: map[string][]token.Pos{}, resolved: map[string][]token.Pos{}}
 		pm := buildParents(fd.Body)
 		isIndexMap := func(x ast.Expr) (string, bool) {
 			if _, ok := info.TypeOf(x).Underlying().(*types.Map); !ok {
@@ -955,6 +957,23 @@ func (c *Ctx) indexAccesses() map[*types.Func]*indexAccess {
 				return true
 			}
 			if m, ok := isIndexMap(ix.X); ok {
+				// a key produced by a resolver with a recorded guarantee (det1ResolvedKeyExempt)
+				if id, isID := unparen(ix.Index).(*ast.Ident); isID {
+					resolved := false
+					for _, d := range collectDefs(info, fd.Body)[info.ObjectOf(id)] {
+						if call, isCall := unparen(d).(*ast.CallExpr); isCall {
+							if callee := calleeOf(info, call); callee != nil {
+								if _, ex := det1ResolvedKeyExempt[funcKey(callee)]; ex {
+									resolved = true
+								}
+							}
+						}
+					}
+					if resolved {
+						ia.resolved[m] = append(ia.resolved[m], ix.Pos())
+						return true
+					}
+				}
 				ia.lookups[m] = append(ia.lookups[m], ix.Pos())
 			}
 			return true
